@@ -1,8 +1,14 @@
 #!/bin/bash
-# usage: seedeval.sh <PID> <X> [tier] -> verifies the seed /tmp/seedout/<PID>-<X> and runs the PID check on it; appends to /tmp/seedeval.log
-pid=$1; x=$2; tier=${3:-quick}
-d=/tmp/seedout/$pid-$x
+# usage: seedeval.sh <PID> <X> [tier] [checkPID]  -> (re)verifies the seed /verif/seeded/<PID>-<X> (copied from /tmp/seedout if needed) in a private
+# worktree and runs the check of checkPID (default PID) against it; appends the outcome to /verif/seeded/<PID>-<X>/eval.txt and /tmp/seedeval.log
+pid=$1; x=$2; tier=${3:-quick}; cpid=${4:-$pid}
+d=/verif/seeded/$pid-$x
+if [ ! -f $d/patch.diff ]; then mkdir -p $d; cp /tmp/seedout/$pid-$x/patch.diff /tmp/seedout/$pid-$x/meta.json $d/ 2>/dev/null; cp /tmp/seedout/$pid-$x/*demo*.go $d/ 2>/dev/null; fi
 [ -f $d/patch.diff ] || { echo "$pid-$x missing"; exit 1; }
-v=$(/verif/tools/seedverify.sh $d pkg 2>&1 | tail -1)
-m=$(/verif/tools/mutcheck.sh $pid --patch $d/patch.diff $tier 2>&1 | grep -E "exit=|INCONCLUSIVE|what:" | cut -c1-260 | awk '/what:/{n++; if(n>2) next} {print}' | tr '\n' '|')
-echo "$(date +%H:%M) $v || check($tier): $m" >> /tmp/seedeval.log
+if ! grep -q "^verify:" $d/eval.txt 2>/dev/null; then
+  v=$(/verif/tools/seedverify.sh $d pkg 2>&1 | tail -1)
+  echo "verify: $v" >> $d/eval.txt
+fi
+m=$(/verif/tools/mutcheck.sh $cpid --patch $d/patch.diff $tier 2>&1 | grep -E "exit=|INCONCLUSIVE|what:" | cut -c1-260 | awk '/what:/{n++; if(n>2) next} {print}' | tr '\n' '|')
+echo "check $cpid $tier @$(git -C /verif rev-parse --short HEAD): $m" >> $d/eval.txt
+echo "$(date +%H:%M) $pid-$x check($cpid $tier): $(echo "$m" | grep -o 'exit=[0-9]*') $(grep '^verify' $d/eval.txt | cut -c1-140)" >> /tmp/seedeval.log
